@@ -626,6 +626,21 @@ var c05Directed = func() []c05Dir {
 			}
 		}
 	}
+	// a conditional whose predicate is not known between a constructor and a
+	// collection: the constructor is converted to the collection type, which may
+	// change its length (tuple to set) — any length promised for the unknown
+	// result must admit both converted arms
+	for _, src := range []string{"c ? [a, b] : st", "c ? st : [a, b]", "c ? [a, b] : ls", "c ? [a, b, a] : st", "c ? {p = a, q = b} : mp", "c ? [a, b] : []", "c ? [[a, b]] : [st]",
+		"len(c ? [a, b] : st)", "[for x in (c ? [a, b] : st): x]", "c ? tup(a, b) : st", "c ? [for x in [a, b]: x] : st"} {
+		for _, ab := range [][2]string{{"k", "k"}, {"k", "j"}, {"x", "y"}} {
+			base := map[string]cty.Value{"a": s(ab[0]), "b": s(ab[1]), "st": cty.SetVal([]cty.Value{s("x"), s("y")}), "ls": cty.ListVal([]cty.Value{s("x"), s("y")}), "mp": cty.MapVal(map[string]cty.Value{"p": s("x"), "q": s("y")})}
+			abs := map[string]cty.Value{"c": ub}
+			for k, v := range base {
+				abs[k] = v
+			}
+			out = append(out, c05Dir{Src: src, Abs: abs, Concs: []map[string]cty.Value{{"c": T}, {"c": F}}})
+		}
+	}
 	return out
 }()
 
